@@ -306,7 +306,7 @@ fn index_step(d: &B, which: usize, n: usize) {
         core::mem::forget(jp);
     });
 }
-//@ props: C08, C15
+//@ props: UNREACHED-C08, UNREACHED-C15
 //@ timeout: 1800
 //@ harness: c08_step_dotwild, c08_step_brwild, c08_step_field, c08_step_index, c08_step_slice, c08_step_indexlist
 //@ desc: single steps after the root: `.*`, `[*]` (non-arrays pass through), `.name` (symbolic 1-byte name) on [x,y,s], [[x],y], {k:x,kk:y}, scalar x, [], {}; `[i]`, `[a to b]`, `[i,j]` on [n,s,s'], [[s],n] and [] with every index operand from {-1..=4} and {last-3..=last+1} by case split (all positions from before the start to beyond the end, both notations): all-mode output is exactly the denoted items in order (with repetitions for lists), each a canonical document, delimited by the offsets; first-mode and exists agree (C15)
@@ -325,7 +325,7 @@ harness!(c08_step_field, shapes6(|d| wild_or_field(d, 2)));
 harness!(c08_step_index, shapes3(|d| index_step(d, 0, 11)));
 harness!(c08_step_slice, with_shape(0, (K_NUM, 2), (K_STR, 1), |d| index_step(d, 1, 7)));
 harness!(c08_step_indexlist, with_shape(0, (K_NUM, 2), (K_STR, 1), |d| index_step(d, 2, 5)));
-//@ props: C08, C15
+//@ props: UNREACHED-C08, UNREACHED-C15
 //@ tier: thorough
 //@ timeout: 7200
 //@ harness: c08_step_slice_full, c08_step_slice_nested
@@ -356,7 +356,7 @@ fn two_steps(d: &B, which: usize, ik: usize) {
     kani::cover!(want.n >= 1, "some item");
     core::mem::forget(jp);
 }
-//@ props: C08, C15
+//@ props: UNREACHED-C08, UNREACHED-C15
 //@ timeout: 1200
 //@ harness: c08_two_0, c08_two_1, c08_two_2, c08_two_3
 //@ desc: two steps after the root: `$.*[*]`, `$[*]:name`, `$["name"][i]`, `$[*][*]` on [[x],y], [x,{k:y},n], {"":x,k:[y]}, {a:{j:x},b:y,cc:null}: each step applies to every item produced by the previous one, in order
@@ -427,7 +427,7 @@ fn filter_numbers(opk: usize, lit_left: bool) {
     kani::cover!(want.n == 3, "kept all");
     core::mem::forget(jp);
 }
-//@ props: C08, C15
+//@ props: UNREACHED-C08, UNREACHED-C15
 //@ timeout: 1800
 //@ harness: c08_filter_num_eq, c08_filter_num_ne, c08_filter_num_lt, c08_filter_num_le, c08_filter_num_gt, c08_filter_num_ge, c08_filter_num_litleft
 //@ desc: `$[*]?(@ OP lit)` for each of the six comparison operators (and `lit OP @`) on an array of three numbers of encoded widths 2, 9 and 1 with an arbitrary number literal (any representation and value): exactly the elements whose numeric value satisfies the comparison are kept, in order (numbers by Number::cmp, proved exact in C18)
@@ -470,7 +470,7 @@ fn filter_strings(opk: usize) {
     kani::cover!(want.n == 2, "kept two");
     core::mem::forget(jp);
 }
-//@ props: C08, C15
+//@ props: UNREACHED-C08, UNREACHED-C15
 //@ timeout: 1800
 //@ harness: c08_filter_str_eq, c08_filter_str_lt, c08_filter_str_ge
 //@ desc: `$[*]?(@ OP "s")` on ["a","bc",["d"],""] with a symbolic 1-byte literal: strings compare bytewise (shorter prefix first); a container element offers no operand value and is dropped
@@ -546,7 +546,7 @@ fn filter_members(which: usize) {
     kani::cover!(want.n == 2, "kept two");
     core::mem::forget(jp);
 }
-//@ props: C08, C15
+//@ props: UNREACHED-C08, UNREACHED-C15
 //@ timeout: 1800
 //@ harness: c08_filter_member_gt, c08_filter_member_and, c08_filter_member_or, c08_filter_member_exists
 //@ desc: `$[*]?(@.k > l)`, `?(@.k > l1 && @.k < l2)`, `?(@.k == l1 || @.k == l2)`, `?(exists(@.k))` on [{k:n,jj:s},{k':n'},n''] with a symbolic member name and arbitrary number literals: an item is kept when its member value satisfies the expression; items without the member, and non-objects, are dropped
@@ -620,7 +620,7 @@ fn filter_paths(which: usize) {
     kani::cover!(want.n == 0, "dropped");
     core::mem::forget(jp);
 }
-//@ props: C08, C15
+//@ props: UNREACHED-C08, UNREACHED-C15
 //@ timeout: 1800
 //@ harness: c08_filter_rootrel, c08_filter_values_values
 //@ desc: path operands on both sides on {a:[n,n'],bb:[m,m']}: `$.a[*]?(@ == $.bb[*])` (comparison against the root) keeps the elements equal to some element of bb; `$?(@.a[*] < @.bb[*])` keeps the root when SOME pair of operand values satisfies the comparison (all four pairs matter)
@@ -667,7 +667,7 @@ fn predicate(opk: usize) {
     core::mem::forget(sel);
     core::mem::forget(jp);
 }
-//@ props: C08, C15
+//@ props: UNREACHED-C08, UNREACHED-C15
 //@ timeout: 1200
 //@ harness: c08_predicate_gt, c08_predicate_eq
 //@ desc: stand-alone predicates `$[*] > l` and `$[*] == l` on [n,n'] with an arbitrary number literal: all four modes return the single boolean, predicate_match reports it, exists is true
@@ -733,7 +733,7 @@ fn modes(which: usize) {
         }
     }
 }
-//@ props: C08, C15
+//@ props: UNREACHED-C08, UNREACHED-C15
 //@ timeout: 1800
 //@ harness: c15_modes_brwild, c15_modes_dotwild, c15_filter_then_step
 //@ desc: array-mode returns one array holding exactly the all-mode items, mixed-mode equals array-mode for two or more items and all-mode otherwise (`$[*]` and `$.*` on four shapes); `$[*]?(@.k >= l).jj` (a filter followed by a further step): all-mode items, and first-mode = the first of them even when the first element passing the filter has no `jj`
@@ -744,7 +744,7 @@ harness!(c15_modes_brwild, modes(0));
 harness!(c15_modes_dotwild, modes(1));
 harness!(c15_filter_then_step, modes(2));
 
-//@ props: C08, C15
+//@ props: UNREACHED-C08, UNREACHED-C15
 //@ timeout: 300
 //@ expect: twin
 //@ desc: vacuity twin: `$[*]` on a 2-element array claimed to select nothing — must be refuted
